@@ -8,11 +8,11 @@ props = [json.loads(l) for l in open(os.path.join(V, "properties.jsonl"))]
 DIFF = "bounded-exhaustive grammar/derivation enumeration executed on the real code, compared point by point with a reference interpreter"
 META = "bounded-exhaustive enumeration of identity-schema instantiations x documents executed on the real code; metamorphic oracle (implementation against itself)"
 claimed = {
- "C06": ("explicit-state search over call histories on one compiled Expression (real code, prefix replay on fresh compilations); invariants on every transition",
+ "C06": ("explicit-state search over call histories on one compiled Expression (real code, prefix replay on fresh compilations), on the instrumented and on the pristine build; invariants on every transition; plus every ordered pair of near-identical texts compiled one after the other",
          "every sequence of up to 2 (3) Search calls over 12 documents (spare capacity with sentinels, shared sub-values, repeated documents), from cold and warmed-up states, for ~500 expressions: outcome equals a fresh one-shot Search, deep snapshots of all documents incl. hidden capacity unchanged, structural hash of the AST unchanged, earlier results unchanged",
          "trusts the reflection-based deep hash/snapshot (core/deep.go)",
          "4/C06"),
- "C07": ("stateless model checking of the real code under a controlled cooperative scheduler (yield at every function entry): iterative preemption bounding (quick) / all scheduler states with state-key pruning (thorough); plus a free-running race-detector pass",
+ "C07": ("stateless model checking of the real code under a controlled cooperative scheduler (yield at every function entry, loop iteration and sync/atomic operation; sync types replaced by scheduler-aware models with blocked tasks and deadlock detection; package-level state restored per execution): iterative preemption bounding (quick) / all scheduler states with state-key pruning (thorough); plus a free-running race-detector pass",
          "2 (3) goroutines calling Expression.Search / Search / Compile on a shared Expression and shared documents: every schedule with <= 2 preemptions (thorough: every reachable state for 2 goroutines, bound 3 for 3); shared-state hash (AST, documents incl. capacity, all package-level variables) unchanged after every execution and after every yield of every solo run; every call returns its solo outcome",
          "scheduling points are function entries; hardware memory ordering is not modelled; the race-detector pass is supporting (sampling) evidence",
          "4/C07"),
@@ -20,11 +20,11 @@ claimed = {
          "all combinations of slice/index/find/replace/split/pad integer parameters from a 16-value alphabet spanning the 64-bit range on arrays and strings of length 0,1,3,8; numeric text with exponents/coefficients up to 10^5 digits; 80 size families at n = 64..4096: iterations <= 64*size*log2(size)+512, bytes <= 4096*size+1MiB, iterations(2n) <= 8*iterations(n)",
          "work inside the standard library/decimal128 is visible only through allocation, the 8 GiB limit and the 60 s watchdog",
          "4/C09"),
- "C15": ("environment-answer search on the real code: every range over a map is a question answered by the explorer (all n! orders at every question; deviation bound 2 above the execution cap); plus a pristine-build phase under Go's own randomised iteration",
+ "C15": ("environment-answer search on the real code: every range over a map is a question answered by the explorer (all n! orders at every question; deviation bound 2 above the execution cap); plus pristine-build phases under Go's own randomised iteration and with near-identical expressions evaluated first",
          "for ~3700 (expression, document) pairs every vector of map-iteration orders is executed: deviations at non-enumerating sites (let, multi-select hash, merge, equality, AST walk) must not change the observation at all, deviations at enumerating sites only the order of the produced arrays",
          "the seam covers the range statements the instrumenter lists (13 today; skipped sites are reported in the evidence)",
          "4/C15"),
- "C03": ("bounded-exhaustive enumeration of byte strings, byte edits, Go values x placements x expressions and nesting families executed on the real code in worker processes; crash oracle (a dead worker is an observation)",
+ "C03": ("bounded-exhaustive enumeration of byte strings, byte edits, code points as token starts, Go values x placements x expressions and nesting families executed on the real code in worker processes; crash oracle (a dead worker is an observation)",
          "all byte strings up to length 4 (5) over the scanner alphabet and the single-byte-edit neighbourhood of the corpus expressions through Compile/MustCompile/Search/Expression.Search; 84 Go values (all numeric kinds at their extremes, NaN/Inf, malformed json.Number, decimal specials, nil containers, foreign types) at 5 placements under ~700 expressions; 16 nesting families at depths 10^2..10^6 each in its own process",
          "cyclic data and pad widths of astronomic magnitude are outside the claim; the known deep-nesting stack overflow (>= 10^6 levels) is recorded in known_findings.json",
          "4/C03"),
@@ -36,7 +36,7 @@ claimed = {
          "all byte strings up to length 4 (5 thorough) over a 31-symbol alphabet, every token-gap whitespace placement and the complete single-token-edit neighbourhood of ~1500 valid expressions, and all sequences of literal-body fragments in the four quote syntaxes: accept/reject must match the reference grammar and accepted strings must mean what the reference says",
          "trusts the reference lexer/parser (appendix B), which abstains (UNSURE, counted) on whitespace inside [*] / .* / before a call parenthesis, let/in as identifiers, lone surrogates and control characters in quoted identifiers",
          "4/C04"),
- "C16": ("bounded-exhaustive enumeration of strings x literal spellings executed on the real code; round-trip oracle (the string itself)",
+ "C16": ("bounded-exhaustive enumeration of strings (all of a small alphabet up to length 5/6, every code point alone and between letters) x literal spellings executed on the real code; round-trip oracle (the string itself)",
          "every string up to the stated length over a 16-symbol alphabet of quotes, escapes, control characters and 1-4 byte code points is written in every spelling the grammar allows (raw string, JSON literal, quoted identifier; 11 spellings) and must evaluate to itself / select the member of that name; JSON values between backticks must keep their number text",
          "trusts the 40-line escaping routines of the harness, which follow the grammar's escape rules",
          "4/C16"),
@@ -44,7 +44,7 @@ claimed = {
          "every (e1, e2) of the menus (all built-ins, all core constructs, empty inputs; plus every C01 expression as e1 with 10 probes) on every document: result walked for non-JSON parts, serialised and decoded, e2 searched over the live and the decoded result, both equal to `e1 | e2`",
          "trusts encoding/json as the serialiser",
          "4/C18"),
- "C11": ("bounded-exhaustive enumeration of string constructs x strings x numeric arguments on the real code; metamorphic renaming oracle (a,b,c -> 1-4 byte code points, order preserving) + reference comparison on the ASCII point",
+ "C11": ("bounded-exhaustive enumeration of string constructs x strings x numeric arguments on the real code; metamorphic renaming oracle (five order-preserving renamings covering every UTF-8 lead-byte class) + reference comparison on the ASCII point + structural oracle for lower/upper over every cased code point",
          "every string-handling construct on every string over {a,b,c} up to the stated length with all numeric arguments in -1..6 is evaluated as written and under two injective order-preserving renamings to multi-byte code points, in literal and document delivery; the result must rename the same way, be valid UTF-8, and the ASCII point must agree with the reference",
          "trusts the renaming harness (60 lines) and, for the differential part, the reference's string functions",
          "4/C11"),
